@@ -178,6 +178,16 @@ def _iter_spec(rng: random.Random, name: str, maxlen: int = 8) -> dict:
         n = rng.randint(0, min(maxlen, 5))
         return {"tool": name, "srcs": [[[rng.randrange(3) for _ in range(rng.randint(0, 3))] for _ in range(n)]],
                 "fns": ["mk"], "params": {}}
+    if name == "merge" and rng.random() < 0.08:
+        # items whose comparison fails (ValueError, KeyError, ...; one type per input): the merge ends with that
+        # failure after the same items
+        exc = rng.choice(["ValueError", "KeyError", "LookupError", "RuntimeError"])
+        n = rng.choice([2, 2, 3])
+        srcs = []
+        for _ in range(n):
+            ks = sorted(rng.randrange(6) for _ in range(rng.randint(0, 4)))
+            srcs.append([["X", k, exc if rng.random() < 0.2 else None] for k in ks])
+        return {"tool": name, "raw": True, "srcs": srcs, "fns": [rng.choice([None, "ident"])], "params": {}}
     if name == "merge":
         n = rng.choice([0, 1, 2, 2, 3, 3, 4])
         reverse = rng.random() < 0.5
